@@ -35,6 +35,14 @@ CLAIMED = {
                      "transfer function; queue, slots, statuses and running/cancelled transfers are compared with the model after every event.",
                 note=BASE_TB + "Modelled not verified: atomicity of each handler (it holds SnapshotSender.mu); TransferStart/TransferQueued messages are not compared. "
                      "Props/C12 imports Mathlib.Data.List.Nodup and .Perm.Subperm for list lemmas."),
+    "C07": dict(category="proof", design="DESIGN.md §4 C07",
+                technique="Lean 4 confinement theorems over an element-stack model of filepath.Clean/Join and the receiver's validators; regenerated dominance facts; filepath differential; hostile-sender runs with sandbox snapshot",
+                text="Within_join and its corollaries prove, for arbitrary byte strings, that every path expression the receiver builds from a validated manifest "
+                     "(directories, files, resume-metadata names from ids or path hashes, both root modes) is lexically inside the output directory. Ties: SSA dominance facts "
+                     "(ValidateManifest before MkdirAll, validateRelPath before OpenFile/MkdirAll) regenerated each run; clean/join/isAbs/dir and both validators compared with "
+                     "path/filepath and the real functions on generated byte strings; a scripted hostile sender drives the real RecvManifestMultiStream and the set of created "
+                     "paths must equal the model's prediction, with nothing changed outside the out dir (full sandbox snapshot).",
+                note=BASE_TB + "Modelled not verified: lexical confinement only (fresh out dir without symlinks); nested Join = one Clean is checked differentially; OS path limits; encoding/json string decoding."),
 }
 PENDING_REASON = "check not built yet in this round (design in DESIGN.md §4); not claimed until its theorem and tie exist"
 NOT_APPLICABLE = {}
